@@ -1442,6 +1442,23 @@ class FakeLogger(ModelObject):
     debug = info = warning = error = exception = critical = log = _noop
 
 
+class LazyGen(ModelObject):
+    """Value of a call to a generator function of the repo: the body runs when it is iterated
+    (to completion, yields collected) — good enough wherever no other task interleaves."""
+
+    def __init__(self, runner: Callable[[], list]):
+        self._runner = runner
+        self._items: list | None = None
+
+    def run(self) -> list:
+        if self._items is None:
+            self._items = self._runner()
+        return self._items
+
+    def __iter__(self):
+        return iter(self.run())
+
+
 class CtxGen(ModelObject):
     """Value of a call to a @contextmanager generator function of the repo."""
 
@@ -1571,6 +1588,8 @@ class XInterp(Interp):
             return env[e.id]
         if e.id in _BUILTINS:
             return _BUILTINS[e.id] if e.id != "isinstance" else self._isinstance
+        if e.id == "issubclass":
+            return self._issubclass
         return self.global_lookup(self.module, e.id)
 
     def global_lookup(self, m: Module, name: str) -> Any:
@@ -1671,6 +1690,10 @@ class XInterp(Interp):
         if isinstance(obj, ClassRef):
             if attr in ("__name__", "__qualname__"):
                 return obj.name
+            if attr == "mro":
+                return lambda: list(self._mro(obj))
+            if attr == "__module__":
+                return obj.module.name
             for cr in self._mro(obj):
                 h = w.class_hooks.get((cr.name, attr))
                 if h is not None:
@@ -1753,6 +1776,19 @@ class XInterp(Interp):
                 return True
         return False
 
+    def _issubclass(self, a: Any, b: Any) -> bool:
+        bs = b if isinstance(b, tuple) else (b,)
+        if not isinstance(a, ClassRef):
+            raise Unsupported("issubclass on a value that is not a repository class")
+        mro = self._mro(a)
+        ext = [x.rsplit(".", 1)[-1].rsplit(":", 1)[-1] for x in self.world.repo.mro_names(a.ref)]
+        for x in bs:
+            if isinstance(x, ClassRef) and any(c.node is x.node for c in mro):
+                return True
+            if isinstance(x, Ext) and x.dotted.rsplit(".", 1)[-1] in ext:
+                return True
+        return False
+
     # ------------------------------------------------------------------ calls
     def apply(self, f: Any, args: list, kw: dict) -> Any:
         if isinstance(f, FnRef):
@@ -1806,23 +1842,28 @@ class XInterp(Interp):
                 bound[p] = sub.eval(defaults[p], env)
         env.update(bound)
         self.world.trace_calls.append(fn.name)
-        eager = _is_generator(fn) and not stream
-        as_ctx = eager and bool({"contextmanager", "asynccontextmanager"} & _decorators(fn))
-        sink_saved = self.world.yield_sink
-        collected: list = []
-        if eager:
-            self.world.yield_sink = collected.append
+        if _is_generator(fn) and not stream:
+            def run_gen() -> list:
+                collected: list = []
+                saved = self.world.yield_sink
+                self.world.yield_sink = collected.append
+                try:
+                    sub.exec_block(fn.body, env)
+                except _Return:
+                    pass
+                finally:
+                    self.world.yield_sink = saved
+                return collected
+
+            if {"contextmanager", "asynccontextmanager"} & _decorators(fn):
+                # run to completion before the body (its cleanup only closes model connections)
+                return CtxGen(run_gen())
+            return LazyGen(run_gen)
         try:
             sub.exec_block(fn.body, env)
         except _Return as r:
-            if not eager:
-                return r.v
-        finally:
-            self.world.yield_sink = sink_saved
-        if as_ctx:
-            # the generator is run to completion before the body (its cleanup only closes model connections)
-            return CtxGen(collected)
-        return collected if eager else None
+            return r.v
+        return None
 
     def construct(self, c: ClassRef, args: list, kw: dict) -> Any:
         w = self.world
